@@ -192,6 +192,76 @@ func sameStrings(a, b []string) bool {
 	return true
 }
 
+// precompile inputs, classified once by asking the real code (workload selection, not an oracle)
+type preEntry struct {
+	Addr   int
+	In     string // hex
+	Fails  bool   // Run rejects the input
+	MinGas uint64 // RequiredGas(input)
+}
+
+var preTable []preEntry
+
+// preAddr: 0x00..0N (common.BytesToAddress left-aligns short inputs, so build all 20 bytes)
+func preAddr(i int) common.Address {
+	var a common.Address
+	a[19] = byte(i)
+	return a
+}
+
+func buildPreTable() {
+	zeros := func(n int) []byte { return make([]byte, n) }
+	blake := zeros(213)
+	blake[3], blake[212] = 1, 1
+	badPoint := zeros(128)
+	badPoint[31], badPoint[63] = 1, 1
+	cands := map[int][][]byte{
+		1: {zeros(128)}, 2: {zeros(32), {}}, 3: {zeros(32)}, 4: {zeros(32), {}},
+		5:  {zeros(96), append(append(zeros(31), 1, 0, 0, 0, 0, 0, 0, 0, 0, 0, 0, 0, 0, 0, 0, 0, 0, 0, 0, 0, 0, 0, 0, 0, 0, 0, 0, 0, 0, 0, 0, 0, 1), append(zeros(31), 1, 2, 3, 5)...)},
+		6:  {zeros(128), {}, badPoint},
+		7:  {zeros(96), badPoint[:96]},
+		8:  {{}, zeros(192), zeros(191), badPoint[:64]},
+		9:  {blake, zeros(213), zeros(212), {}},
+		10: {zeros(256), zeros(255), badPoint}, 11: {zeros(160), zeros(159)}, 12: {zeros(160), zeros(161), {}},
+		13: {zeros(512), zeros(511)}, 14: {zeros(288), zeros(287)}, 15: {zeros(288), zeros(289), {}},
+		16: {zeros(384), zeros(383), {}}, 17: {zeros(64), zeros(63)}, 18: {zeros(128), zeros(127)},
+	}
+	for addr := 1; addr <= 18; addr++ {
+		p, ok := vm.PrecompiledContracts[preAddr(addr)]
+		if !ok {
+			continue
+		}
+		for _, in := range cands[addr] {
+			e := preEntry{Addr: addr, In: fmt.Sprintf("%x", in)}
+			func() {
+				defer func() {
+					if recover() != nil {
+						e.Addr = 0 // a panicking input is C11's business, not used here
+					}
+				}()
+				e.MinGas = p.RequiredGas(in)
+				_, _, err := vm.RunPrecompiledContract(p, in, 1<<40)
+				e.Fails = err != nil
+			}()
+			if e.Addr != 0 {
+				preTable = append(preTable, e)
+			}
+		}
+	}
+}
+
+// preNode: a frame whose callee is a precompiled contract. lowGas: hand it one gas unit too little.
+func preNode(id int, kind string, e preEntry, lowGas bool, val uint64) *Node {
+	n := &Node{ID: id, Kind: kind, Pre: e.Addr, In: e.In, End: "stop", Val: val}
+	if e.Fails {
+		n.End = "prefail"
+	}
+	if lowGas && e.MinGas > 1 && val == 0 {
+		n.Gas, n.End = e.MinGas-1, "prefail"
+	}
+	return n
+}
+
 // staticUniverse: every address the tree can name without executing it.
 func staticUniverse(trees ...*Node) []common.Address {
 	set := map[common.Address]bool{originAddr: true}
@@ -200,6 +270,9 @@ func staticUniverse(trees ...*Node) []common.Address {
 	}
 	for _, a := range systemAddrs() {
 		set[a] = true
+	}
+	for i := 1; i <= 18; i++ {
+		set[preAddr(i)] = true
 	}
 	for _, t := range trees {
 		t.walk(func(n, _ *Node, _ int, _ bool) {
@@ -929,5 +1002,6 @@ func bootTwin(legacy013 bool) {
 	env.BootCore(f, nil)
 	common.SetBlockHeight(blockHeight)
 	chainID = common.GetChainId(blockHeight)
+	buildPreTable()
 	installTraceHook()
 }
